@@ -594,7 +594,10 @@ class _Analysis:
 
     def e_List(self, e): return self._coll(e.elts)
     def e_Set(self, e): return self._coll(e.elts)
-    def e_Dict(self, e): return self._coll(list(e.keys) + list(e.values))
+    def e_Dict(self, e):
+        for k in e.keys:
+            self.expr(k)
+        return self._coll(list(e.values))       # keys: hashable, treated as immutable
 
     def e_Tuple(self, e):
         v = self._coll(e.elts)
@@ -614,7 +617,7 @@ class _Analysis:
     def e_ListComp(self, e): return self._comp(e, [e.elt])
     def e_SetComp(self, e): return self._comp(e, [e.elt])
     def e_GeneratorExp(self, e): return self._comp(e, [e.elt])
-    def e_DictComp(self, e): return self._comp(e, [e.key, e.value])
+    def e_DictComp(self, e): return self._comp(e, [e.value])
 
     def e_BinOp(self, e):
         a, b = self.expr(e.left), self.expr(e.right)
@@ -694,8 +697,12 @@ class _Analysis:
             if f.attr in MUTATORS:
                 if not (recv.top <= {I}):
                     self.mutation(recv, e, f"call of mutating method .{f.attr}()", path=self._path(f.value))
-                for a_ in allv:
+                # dictionary keys are hashable and are treated as immutable (nothing is written through a key): only the stored value
+                # becomes reachable through the container
+                for a_ in (allv[1:] if f.attr == "setdefault" and len(allv) > 1 else allv):
                     self.absorb(f.value, a_)
+                if f.attr == "setdefault" and len(allv) > 1:
+                    return recv.elem() | allv[-1]
                 return recv.elem()
             # repository method?
             keys = []
@@ -898,7 +905,7 @@ def load_frames() -> Dict[str, Dict[str, Dict[str, List[str]]]]:
 
 def frames_outcome(mods: List[str]):
     """('discharged'|'refuted', text, details): every function of the listed modules writes only what its pinned frame allows and
-    carries no memoisation decorator beyond the pinned ones.  New functions are held to the empty frame."""
+    carries no memoisation decorator beyond the pinned ones.  Functions that are new in the tree are judged through their callers (and for memoisation)."""
     base = load_frames()
     bad = []
     n = 0
@@ -910,7 +917,12 @@ def frames_outcome(mods: List[str]):
             continue
         for q, prof in cur_.items():
             n += 1
-            allowed = b.get(q, {"writes": [], "memo": []})
+            allowed = b.get(q)
+            if allowed is None:
+                # a function that is new in this tree (e.g. a helper extracted by a refactoring): what it writes is judged where it
+                # is used - its effects are part of its callers' summaries and those are held to their pinned frames; only a memoisation
+                # decorator (invisible in the callers' write sets) is judged here
+                allowed = {"writes": list(prof["writes"]), "memo": []}
             extra_w = [w for w in prof["writes"] if w not in allowed["writes"]]
             extra_m = [m_ for m_ in prof["memo"] if m_ not in allowed["memo"]]
             if extra_w:
